@@ -41,7 +41,9 @@ fn wit(d: &BigUint, msg: &[u8], k: Option<&BigUint>, lay: (Order, bool)) -> serd
 
 /// library decrypts `ct` to `msg`
 fn expect_decrypt(ctx: &mut Ctx, d: &BigUint, ct: &[u8], msg: &[u8], lay: (Order, bool), cls: &str) {
-    let Some(sk) = lib_sk(d) else { return };
+    let how = (ct.len() as u64) % 3;
+    let mut pp = Prng::new(how + 3, "prov");
+    let Some((_, sk)) = lib_keys(d, how, &mut pp) else { return };
     ctx.eval();
     ctx.class(cls);
     match guard(|| sk.decrypt(ct, lay.1, model(lay.0))) {
@@ -55,7 +57,11 @@ fn expect_decrypt(ctx: &mut Ctx, d: &BigUint, ct: &[u8], msg: &[u8], lay: (Order
 
 fn enc_case(ctx: &mut Ctx, d: &BigUint, msg: &[u8], k: Option<&BigUint>, lay: (Order, bool), cls: &str) {
     let pk = r2::mul(d, &r2::g()).unwrap();
-    let Some(lpk) = lib_pk(&pk) else {
+    // key objects by provenance (constructor / gen_keypair / Jacobian public point), rotating with the message length
+    let how = (msg.len() as u64 + lay.1 as u64) % 3;
+    ctx.class(provenance(how));
+    let mut pp = Prng::new(how + msg.len() as u64, "prov");
+    let Some((lpk, _)) = lib_keys(d, how, &mut pp) else {
         ctx.violation("Sm2PublicKey::new:valid-point:not-ok", json!({"pk": hex::encode(r2::encode(&pk, false))}));
         return;
     };
@@ -128,7 +134,7 @@ pub fn run(ctx: &mut Ctx) {
     for (n, ok) in r3::selftest() {
         ctx.selftest(&n, ok);
     }
-    ctx.require(&["annex_kat", "len_sweep", "fixed_k_exact", "free_k", "roundtrip", "ref_made_decrypts", "openssl_made_decrypts", "all_zero_msg", "leading_zero_msg", "long_msg", "kdf", "kdf_klen_mod32=00", "c1c2c3_uncompressed", "c1c2c3_compressed", "c1c3c2_uncompressed", "c1c3c2_compressed", "klen_mod32=00"]);
+    ctx.require(&["annex_kat", "len_sweep", "fixed_k_exact", "free_k", "roundtrip", "ref_made_decrypts", "openssl_made_decrypts", "all_zero_msg", "leading_zero_msg", "long_msg", "kdf", "kdf_klen_mod32=00", "c1c2c3_uncompressed", "c1c2c3_compressed", "c1c3c2_uncompressed", "c1c3c2_compressed", "klen_mod32=00", "key_from_constructor", "key_from_gen_keypair", "key_with_jacobian_public_point"]);
     let c = r2::curve();
 
     // --- Annex example
@@ -175,7 +181,11 @@ pub fn run(ctx: &mut Ctx) {
                     }
                     _ => p.bytes(len),
                 };
-                let k = rand_scalar(&mut p, &c.n);
+                let k = match idx % 13 {
+                    0 => BigUint::from(1 + idx % 3),
+                    1 => &c.n - 1u32 - BigUint::from(idx % 2),
+                    _ => rand_scalar(&mut p, &c.n),
+                };
                 let lay = LAYOUTS[lay_i];
                 if (lay_i / 2 + len + rep as usize) % 2 == 0 {
                     enc_case(ctx, &d, &msg, Some(&k), lay, "len_sweep");
